@@ -388,6 +388,41 @@ pub fn run<P: Property>(mut p: P) {
     let n_corpus = cases.len();
     cases.extend(p.generate(&ctx, &mut rng));
 
+    // Watchdog: a case that does not come back (a non-terminating implementation, typically
+    // under a seeded change) must not hang the check. The report then holds that one failure.
+    let wd_state: std::sync::Arc<std::sync::Mutex<(Instant, String, u64)>> =
+        std::sync::Arc::new(std::sync::Mutex::new((Instant::now(), String::new(), 0)));
+    {
+        let wd = wd_state.clone();
+        let out_path = args.out.clone();
+        let pid = p.id().to_string();
+        let tier = args.tier.clone();
+        let seed = args.seed;
+        let rule = p.rule();
+        let limit: u64 = std::env::var("VERIF_CASE_TIMEOUT").ok().and_then(|s| s.parse().ok()).unwrap_or(120);
+        std::thread::spawn(move || loop {
+            std::thread::sleep(std::time::Duration::from_secs(1));
+            let (t, case, n) = {
+                let g = wd.lock().unwrap();
+                (g.0, g.1.clone(), g.2)
+            };
+            if !case.is_empty() && t.elapsed().as_secs() > limit {
+                let j = format!(
+                    "{{\n  \"property\": {}, \"tier\": {}, \"seed\": {}, \"evaluations\": {}, \"distinct_nontrivial\": 0,\n  \"corpus_cases\": 0, \"driver_requests\": 0, \"failing_cases\": 1, \"rule\": {},\n  \"samples\": [{}], \"histogram\": {{}},\n  \"failures\": [{{\"kind\": \"impl-panic\", \"stream\": \"watchdog\", \"signature\": \"does not terminate\", \"detail\": {}, \"case\": {}}}],\n  \"wall_s\": {}\n}}\n",
+                    jstr(&pid), jstr(&tier), seed, n, jstr(&rule), jstr(&trunc(&case, 400)),
+                    jstr(&format!("case did not finish within {limit} s (implementation or driver does not terminate)")),
+                    jstr(&case), t.elapsed().as_secs()
+                );
+                if out_path.is_empty() {
+                    print!("{j}");
+                } else {
+                    let _ = std::fs::write(&out_path, j);
+                }
+                std::process::exit(0);
+            }
+        });
+    }
+
     let mut seen: HashSet<u64> = HashSet::new();
     let mut distinct_nontrivial = 0u64;
     let mut evaluations = 0u64;
@@ -400,6 +435,10 @@ pub fn run<P: Property>(mut p: P) {
 
     for (i, case) in cases.iter().enumerate() {
         evaluations += 1;
+        {
+            let mut g = wd_state.lock().unwrap();
+            *g = (Instant::now(), case.clone(), evaluations);
+        }
         let out = run_one(&mut p, case, &mut drv);
         let h = fxhash(case);
         let fresh = seen.insert(h);
@@ -424,6 +463,11 @@ pub fn run<P: Property>(mut p: P) {
                 continue;
             }
             failure_sigs.insert(key);
+            {
+                // shrinking re-runs many variants: give it its own allowance
+                let mut g = wd_state.lock().unwrap();
+                *g = (Instant::now() + std::time::Duration::from_secs(600), case.clone(), evaluations);
+            }
             f.case = shrink_case(&mut p, case, &f, &mut drv);
             if f.case != *case {
                 // describe the minimised case, not the one it was found on
